@@ -258,6 +258,9 @@ static void parsec_ioa_resize_and_rdlock(parsec_info_object_array_t *oa, parsec_
     if(iid >= oa->known_infos) {
         int ns;
         parsec_atomic_rwlock_rdunlock(&oa->rw_lock);
+#if defined(PARSEC_VERIF)
+        PARSEC_VERIF_YIELD(PARSEC_VERIF_SITE_INFO);
+#endif
         parsec_atomic_rwlock_wrlock(&oa->rw_lock);
         if(iid >= oa->known_infos) {
             assert(oa->infos->max_id >= iid);
@@ -271,6 +274,9 @@ static void parsec_ioa_resize_and_rdlock(parsec_info_object_array_t *oa, parsec_
             oa->known_infos = ns;
         }
         parsec_atomic_rwlock_wrunlock(&oa->rw_lock);
+#if defined(PARSEC_VERIF)
+        PARSEC_VERIF_YIELD(PARSEC_VERIF_SITE_INFO);
+#endif
         parsec_atomic_rwlock_rdlock(&oa->rw_lock);
     }
 }
